@@ -161,3 +161,21 @@ def classes(tree):
 def node_kind(tree):
     """class mark, or kind, of the root"""
     return tree.get('cls') or tree['t']
+
+
+def skeleton(tree):
+    """the classes of a tree, kinds and properties left out (`Skel` of Variants.lean)"""
+    t, cls = tree['t'], tree.get('cls')
+    if cls == 'text':
+        return 'text'
+    if cls == 'status':
+        return 'status'
+    if cls == 'limits':
+        return {'limits': skeleton(tree['elems'][0])}
+    if t == 'array':
+        return {'array': skeleton(tree['elem'])}
+    if t == 'tuple':
+        return {'tuple': [skeleton(e) for e in tree['elems']]}
+    if t == 'struct':
+        return {'struct': [[k, skeleton(m)] for k, m in tree['members']]}
+    return 'leaf'
